@@ -12,7 +12,7 @@ EXTENDS Cloud, TLC, Json, IOUtils
 Rec == ndJsonDeserialize(IOEnv.TRACE)
 N == Len(Rec)
 MaxNode == 8
-PROPS == {"C01", "C02", "C05", "C08", "C09", "C10", "C12", "C14", "C15"}
+PROPS == {"C01", "C02", "C05", "C08", "C09", "C10", "C11", "C12", "C13", "C14", "C15"}
 Enforced == {p \in PROPS : IOEnv["VP_ENF_" \o p] = "1"}
 
 VARIABLES l, now, st, inst, sess
@@ -31,7 +31,8 @@ When(c, rules) == IF c THEN rules ELSE TRUE
 
 FromPost(p) ==
   [peers |-> {[a |-> x.a, nid |-> x.nid, exp |-> x.exp, pt |-> x.pt, init |-> x.init, ist |-> x.ist, ct |-> x.ct, addrs |-> x.addrs] : x \in SeqSet(p.peers)},
-   pend |-> SeqSet(p.pend), claims |-> SeqSet(p.claims), own |-> SeqSet(p.own), np |-> p.np, nr |-> p.nr, rc |-> p.rc]
+   pend |-> SeqSet(p.pend), claims |-> {[p |-> x.p, r |-> x.r, exp |-> x.exp] : x \in SeqSet(p.claims)},
+   cache |-> SeqSet(p.cache), cx |-> SeqSet(p.claims), cseq |-> p.claims, own |-> SeqSet(p.own), np |-> p.np, nr |-> p.nr, rc |-> p.rc]
 PlainOf(p) == {x.a : x \in {y \in SeqSet(p.peers) : y.plain}}
 
 Count(sent, x) == Cardinality({i \in 1..Len(sent) : sent[i] = x})
@@ -52,12 +53,12 @@ Adopt(e) == st' = [st EXCEPT ![e.n].s = FromPost(e.post), ![e.n].plain = PlainOf
 
 Boot(e) ==
   LET c == [self |-> e.n, nid |-> <<e.n, e.inc>>, T |-> e.T, ka |-> e.ka, adv |-> SeqSet(e.adv), key |-> e.key,
-            trusted |-> SeqSet(e.trusted), claims |-> e.claims, plain |-> e.plain, learn |-> e.learn, bc |-> e.bc]
+            trusted |-> SeqSet(e.trusted), claims |-> e.claims, plain |-> e.plain, learn |-> e.learn, bc |-> e.bc, st |-> e.st]
       obs == FromPost(e.post) IN
   /\ st' = [st EXCEPT ![e.n] = [up |-> TRUE, s |-> obs, c |-> c, plain |-> PlainOf(e.post)]]
   /\ inst' = inst \cup {[nid |-> c.nid, key |-> e.key, trusted |-> SeqSet(e.trusted), claims |-> e.claims, T |-> e.T]}
   /\ When(e.fresh, Chk({"C12", "C14", "C15"}, "boot-state",
-                    obs = [peers |-> {}, pend |-> {}, claims |-> {}, own |-> c.adv \cup {e.n}, np |-> now, nr |-> now + OWN_RESET, rc |-> <<>>]))
+                    obs = [peers |-> {}, pend |-> {}, claims |-> {}, cache |-> {}, cx |-> {}, cseq |-> <<>>, own |-> c.adv \cup {e.n}, np |-> now, nr |-> now + OWN_RESET, rc |-> <<>>]))
   /\ sess' = [sess EXCEPT ![e.n] = {}]
   /\ UNCHANGED now
 
@@ -72,6 +73,7 @@ Compare(tag, pred, obs) ==
   /\ Chk({"C15"}, tag \o "-peer-expiry", Expiry(obs.peers) = Expiry(pred.peers))
   /\ Chk({"C05"}, tag \o "-pending", obs.pend = pred.pend)
   /\ Chk({"C12"}, tag \o "-claims", obs.claims = pred.claims)
+  /\ Chk({"C11", "C12", "C13"}, tag \o "-cache", obs.cache = pred.cache)
   /\ Chk({"C14"}, tag \o "-own-addresses", obs.own = pred.own)
   /\ Chk({"C15"}, tag \o "-next-announcement", obs.np = pred.np)
   /\ Chk({"C15"}, tag \o "-reconnect-entries", obs.rc = pred.rc)
@@ -118,7 +120,10 @@ RecvEv(e) ==
       predPend == IF e.res = "reply" /\ route = "pending" /\ e.src \in Addrs(obs.pend)
                      /\ PendAfterReply(ThePend(pre, e.src), ThePend(obs, e.src))
                   THEN {q \in r.s.pend : q.a # e.src} \cup {ThePend(obs, e.src)} ELSE r.s.pend
-      pred == [r.s EXCEPT !.pend = predPend]
+      \* a delivered frame teaches a learning node where its source address lives (the harness knows the frame inside a
+      \* payload datagram from the interface read that caused it)
+      predCache == IF e.res = "data" /\ e.fk THEN LearnFrom(r.s, c, e.src, e.fsrc, now) ELSE r.s.cache
+      pred == [r.s EXCEPT !.pend = predPend, !.cache = IF e.res = "data" /\ ~e.fk THEN obs.cache ELSE predCache]
       replyOK == \/ e.res \notin {"reply", "initialized-reply"} /\ CountTo(e.sent, e.src, {"init", "empty", "rot"}) = Count(r.out, <<e.src, "init">>)
                  \/ e.res = "reply" /\ CountTo(e.sent, e.src, InitTags) = 1 + Count(r.out, <<e.src, "init">>) - 1
                  \/ e.res = "initialized-reply" /\ CountTo(e.sent, e.src, {"init", "rot"}) = 1 + Count(r.out, <<e.src, "init">>)
@@ -171,8 +176,15 @@ RecvEv(e) ==
   /\ Adopt(e) /\ UNCHANGED <<now, inst>>
 
 IfaceEv(e) ==
-  LET n == st[e.n] pre == n.s obs == FromPost(e.post) IN
-  /\ Compare("iface", pre, obs)
+  LET n == st[e.n] pre == n.s obs == FromPost(e.post)
+      outs == IfaceOutcomes(pre, n.c, e.fdst, now) IN
+  /\ Compare("iface", [pre EXCEPT !.cache = obs.cache], obs)
+  \* C10 / C11 / C13: the frame goes to the next hop of its destination - cached or learned decision, else the most
+  \* specific live claim (which is then cached no longer than the switch timeout and the claim's life), else to all
+  \* peers (switch, hub) or nowhere (router) - one copy each, and the cache afterwards is what that prescribes
+  /\ Unless(e.tagerr, Chk({"C10", "C11", "C13"}, "iface-next-hops-and-cache",
+         IF e.fk THEN \E o \in outs : Dests(e.sent) = o.hops /\ obs.cache = o.cache
+         ELSE e.sent = <<>> /\ obs.cache = pre.cache))
   /\ Unless(e.tagerr, Chk({"C10", "C12"}, "iface-emissions-to-peers-only",
                      /\ Tags(e.sent) \subseteq {"data"}
                      /\ Dests(e.sent) \subseteq Addrs(pre.peers)
